@@ -300,6 +300,99 @@ func CowCTA(c *core.Ctx) {
 	c.Table("R-CTA primitives", "reads: "+strings.Join(loaderList, ","), "copy-on-write entry: "+strings.Join(cowList, ","))
 	cowEntryNames = cowNames
 	cowAccessorNames = accessor
+	// reexamines: the method's critical section branches on the snapshot it is handed (directly: the literal given to the
+	// copy-on-write entry tests its parameter; indirectly: every publishing method it calls does). A caller may then
+	// read optimistically before calling it; a blind publisher (Updated) may not be guarded by such a read.
+	litBranchesOnParam := func(lit *ast.FuncLit) bool {
+		if lit == nil || len(lit.Type.Params.List) != 1 || len(lit.Type.Params.List[0].Names) != 1 {
+			return false
+		}
+		om := info.Defs[lit.Type.Params.List[0].Names[0]]
+		derived := map[types.Object]bool{om: true}
+		mentions := func(n ast.Node) bool {
+			return n != nil && nodeContains(n, true, func(x ast.Node) bool {
+				id, ok := x.(*ast.Ident)
+				return ok && derived[info.Uses[id]]
+			})
+		}
+		for changed := true; changed; {
+			changed = false
+			ast.Inspect(lit.Body, func(x ast.Node) bool {
+				if as, ok := x.(*ast.AssignStmt); ok {
+					for i, l := range as.Lhs {
+						rhs := as.Rhs[0]
+						if i < len(as.Rhs) {
+							rhs = as.Rhs[i]
+						}
+						if o := objOf(info, l); o != nil && !derived[o] && mentions(rhs) {
+							derived[o] = true
+							changed = true
+						}
+					}
+				}
+				return true
+			})
+		}
+		found := false
+		ast.Inspect(lit.Body, func(x ast.Node) bool {
+			switch s := x.(type) {
+			case *ast.IfStmt:
+				if mentions(s.Cond) || mentions(s.Init) {
+					found = true
+				}
+			case *ast.SwitchStmt:
+				if mentions(s.Tag) || mentions(s.Init) {
+					found = true
+				}
+			}
+			return true
+		})
+		return found
+	}
+	reexamines := map[string]bool{}
+	for _, fb := range cowMethods {
+		ok, any := true, false
+		ast.Inspect(fb.Body, func(x ast.Node) bool {
+			if call, isCall := x.(*ast.CallExpr); isCall {
+				if callee := onSelf(call, self[fb]); callee != "" && cowNames[callee] && len(call.Args) > 0 {
+					any = true
+					lit, _ := ast.Unparen(call.Args[0]).(*ast.FuncLit)
+					if !litBranchesOnParam(lit) {
+						ok = false
+					}
+				}
+			}
+			return true
+		})
+		if any && ok {
+			reexamines[fb.Decl.Name.Name] = true
+		}
+	}
+	for changed := true; changed; {
+		changed = false
+		for _, fb := range cowMethods {
+			name := fb.Decl.Name.Name
+			if reexamines[name] || !storerNames[name] || directStore[name] || cowNames[name] || accessor[name] {
+				continue
+			}
+			ok, any := true, false
+			ast.Inspect(fb.Body, func(x ast.Node) bool {
+				if call, isCall := x.(*ast.CallExpr); isCall {
+					if callee := onSelf(call, self[fb]); callee != "" && storerNames[callee] && !accessor[callee] {
+						any = true
+						if !reexamines[callee] {
+							ok = false
+						}
+					}
+				}
+				return true
+			})
+			if any && ok {
+				reexamines[name] = true
+				changed = true
+			}
+		}
+	}
 	for _, fb := range cowMethods {
 		recv := self[fb]
 		isRecvCall := func(call *ast.CallExpr, names ...string) bool {
@@ -379,6 +472,109 @@ func CowCTA(c *core.Ctx) {
 			})
 			if pubEnd != token.NoPos {
 				nWrite++
+				// check-then-act through a publishing method: a read of the map outside the lock that guards the
+				// publishing call (a branch before it tests the read) needs a publisher that re-examines the snapshot
+				var pubCall *ast.CallExpr
+				ast.Inspect(fb.Body, func(x ast.Node) bool {
+					if call, ok := x.(*ast.CallExpr); ok && call.End() == pubEnd {
+						if callee := onSelf(call, recv); callee != "" && storerNames[callee] && !accessor[callee] {
+							pubCall = call
+						}
+					}
+					return true
+				})
+				if pubCall != nil {
+					var pre []*ast.CallExpr
+					for _, a := range reads {
+						if a.End() <= pubCall.Pos() {
+							pre = append(pre, a)
+						}
+					}
+					var guardRead *ast.CallExpr
+					if len(pre) > 0 {
+						derivedFrom := map[types.Object]*ast.CallExpr{}
+						readIn := func(n ast.Node) *ast.CallExpr {
+							if n == nil {
+								return nil
+							}
+							var hit *ast.CallExpr
+							ast.Inspect(n, func(x ast.Node) bool {
+								if _, isLit := x.(*ast.FuncLit); isLit {
+									return false
+								}
+								if call, ok := x.(*ast.CallExpr); ok && hit == nil {
+									for _, a := range pre {
+										if a == call {
+											hit = a
+										}
+									}
+								}
+								if id, ok := x.(*ast.Ident); ok && hit == nil {
+									if a := derivedFrom[info.Uses[id]]; a != nil {
+										hit = a
+									}
+								}
+								return true
+							})
+							return hit
+						}
+						for changed := true; changed; {
+							changed = false
+							ast.Inspect(fb.Body, func(x ast.Node) bool {
+								if _, isLit := x.(*ast.FuncLit); isLit {
+									return false
+								}
+								if as, ok := x.(*ast.AssignStmt); ok && as.End() <= pubCall.Pos() {
+									for i, l := range as.Lhs {
+										rhs := as.Rhs[0]
+										if i < len(as.Rhs) {
+											rhs = as.Rhs[i]
+										}
+										if o := objOf(info, l); o != nil && derivedFrom[o] == nil {
+											if a := readIn(rhs); a != nil {
+												derivedFrom[o] = a
+												changed = true
+											}
+										}
+									}
+								}
+								return true
+							})
+						}
+						ast.Inspect(fb.Body, func(x ast.Node) bool {
+							if _, isLit := x.(*ast.FuncLit); isLit {
+								return false
+							}
+							if x == nil || x.Pos() >= pubCall.Pos() || guardRead != nil {
+								return x != nil && guardRead == nil
+							}
+							switch st := x.(type) {
+							case *ast.IfStmt:
+								if a := readIn(st.Init); a != nil {
+									guardRead = a
+								} else if a := readIn(st.Cond); a != nil {
+									guardRead = a
+								}
+							case *ast.SwitchStmt:
+								if a := readIn(st.Init); a != nil {
+									guardRead = a
+								} else if a := readIn(st.Tag); a != nil {
+									guardRead = a
+								}
+							}
+							return true
+						})
+					}
+					callee := onSelf(pubCall, recv)
+					switch {
+					case guardRead == nil:
+						c.Add("R-CTA", name+"/check-then-act", pubCall.Pos(), core.Discharged, "no branch on a read outside the critical section precedes the publishing call")
+					case reexamines[callee]:
+						c.Add("R-CTA", name+"/check-then-act", pubCall.Pos(), core.Discharged, "optimistic read; the publishing method "+callee+" re-examines the current snapshot inside its critical section")
+					default:
+						c.Add("R-CTA", name+"/check-then-act", guardRead.Pos(), core.Violated, "the method decides on a read of the map outside the lock ("+exprString(guardRead)+") and then publishes through "+callee+", which writes without re-examining the current snapshot: between check and act another goroutine can have stored a value, which is overwritten (two ComputeIfAbsent calls return different values)")
+					}
+				}
 				var bad *ast.CallExpr
 				ast.Inspect(fb.Body, func(x ast.Node) bool {
 					if _, ok := x.(*ast.FuncLit); ok {
@@ -536,7 +732,21 @@ func CowCTA(c *core.Ctx) {
 					}
 					if id, ok := ast.Unparen(ret.Results[0]).(*ast.Ident); ok {
 						if o := info.Uses[id]; o != nil && storedVals[o] && !assignedInLit[o] && (o.Pos() < lit.Pos() || o.Pos() > lit.End()) {
-							intended = id
+							// unless the method first branches on an outcome the critical section recorded
+							// (`if kept != nil { return *kept }; return nv`): then nv is returned only when it was stored
+							outcomeTested := nodeContains(fb.Body, false, func(y ast.Node) bool {
+								is, ok := y.(*ast.IfStmt)
+								if !ok || is.Pos() < first.End() || is.Pos() >= ret.Pos() {
+									return false
+								}
+								return nodeContains(is.Cond, false, func(z ast.Node) bool {
+									zid, ok := z.(*ast.Ident)
+									return ok && assignedInLit[info.Uses[zid]]
+								})
+							})
+							if !outcomeTested {
+								intended = id
+							}
 						}
 					}
 					return true
